@@ -392,6 +392,70 @@ def shard_staggered(arg) -> E.Tally:
     return t
 
 
+def shard_renewal(arg) -> E.Tally:
+    """The same attribute is re-announced (the same value again, or another) 0.5 / 1.5 / 2+ lifetimes after the first announcement;
+    an application callback (gwy.add_msg_handler) may read the attribute as each message is dispatched, and the attribute may be read
+    just before the second message arrives: whatever was read when, from the moment the second message has been processed the
+    attribute reports ITS value (it is live: at most a few seconds old) - on every read, until it expires in turn."""
+    i, n = arg
+    logcap.install()
+    t = E.Tally()
+    L = letters()
+    j = 0
+    for name, (ent, attr) in ATTR_EXPIRY:
+        other = name[:-2] + ("2)" if name.endswith("1)") else "1)")
+        for second in (name, other):
+            for gap in (0.5, 1.5, 2.0):
+                for cb_reads in (False, True):
+                    for read_before in (False, True):
+                        j += 1
+                        if j % n != i:
+                            continue
+                        w, gwy = new_world(True)
+                        try:
+                            seen = []
+                            if cb_reads:
+                                gwy.add_msg_handler(lambda msg: seen.append(read(gwy, ent, attr)))
+                            w.rx(L[name][0])
+                            w.loop.settle()
+                            msgs = [m for d in gwy.devices for m in d._msg_db] + [m for m in gwy.tcs._msgs.values()]
+                            life = max((m._pkt._lifespan for m in msgs if L[name][0].strip()[:50] in str(m._pkt)), default=None, key=lambda x: x if isinstance(x, td) else td(0))
+                            if not isinstance(life, td) or life <= td(0):
+                                continue
+                            t.n += 1
+                            w.set_time(w.now() + life * gap + (td(seconds=60) if gap >= 2 else td(0)))
+                            if read_before:
+                                seen.append(read(gwy, ent, attr))  # (no turn of the loop before the packet arrives)
+                            w.rx(L[second][0])
+                            w.loop.settle()
+                            w.set_time(w.now() + td(seconds=2))
+                            want = L[second][1][(ent, attr)]
+                            reads = []
+                            for _ in range(3):
+                                reads.append(read(gwy, ent, attr))
+                                w.loop.settle()
+                            t.nontrivial += 1
+                            if any(r != want for r in reads):
+                                same = "same-value" if second == name else "new-value"
+                                t.bad(
+                                    f"C14:re-announced-value-lost:{same}:{attr}",
+                                    f"{name} at t0, {second} at t0+{gap}L{'+60s' if gap >= 2 else ''} (L={life}), app callback reads={cb_reads}, read just before={read_before}: "
+                                    f"2 s after the second message {ent}.{attr} reads {reads}, its message says {want!r}",
+                                    {"renewal": True},
+                                )
+                            elif not any(L[second][0].strip() in ln for ln in gwy.get_state()[1].values()):
+                                t.bad(
+                                    f"C14:re-announced-message-missing-from-saved-state:{attr}",
+                                    f"{name} at t0, {second} at t0+{gap}L (L={life}), app callback reads={cb_reads}, read just before={read_before}: {ent}.{attr} reads {reads} "
+                                    f"but the gateway's saved state (get_state) does not hold the second message {L[second][0].strip()!r}",
+                                    {"renewal": True},
+                                )
+                        finally:
+                            w.close()
+    t.by["renewal"] = t.n
+    return t
+
+
 def _dispatch(job) -> E.Tally:
     return globals()[job[0]](job[1])
 
@@ -405,6 +469,7 @@ def run(ctx) -> None:
     jobs += [("shard_expiry", (i, 16, ctx.quick)) for i in range(16)]
     jobs += [("shard_attr_expiry", (i, 4)) for i in range(4)]
     jobs += [("shard_staggered", (i, 8)) for i in range(8)]
+    jobs += [("shard_renewal", (i, 8)) for i in range(8)]
     total = E.pmap(_dispatch, jobs, ctx.seed)
     ctx.vcount = {k: v["count"] for k, v in total.viol.items()}
     for k, v in sorted(total.viol.items()):
@@ -419,6 +484,7 @@ def run(ctx) -> None:
         histories_by_group={k: v for k, v in total.by.items() if k in GROUPS},
         expiry_cases=total.by.get("expiry", 0),
         staggered_expiry_cases=total.by.get("staggered", 0),
+        renewal_cases=total.by.get("renewal", 0),
         depth=depth,
         exhaustive=True,
         samples=total.samples[:5] or [["T_rp(00,1)"]],
@@ -426,7 +492,8 @@ def run(ctx) -> None:
         "devices; each group = every letter touching an attribute family + interleaved letters for other zones/codes) fed to a real Gateway; after "
         "every step every attribute named by the reference equals the value of the newest message for it. Expiry: one frame per message kind x 8 clock "
         "offsets around L and 2L, and all 65,536 sync-cycle countdown words; attribute-level: after 2L+30 s the attribute reads unknown on the first and later reads; staggered: for every ordered pair of same-kind messages "
-        "for different zones/devices 1.5 lifetimes apart, once the older has expired and been read the younger is still reported (both read orders)",
+        "for different zones/devices 1.5 lifetimes apart, once the older has expired and been read the younger is still reported (both read orders); renewal: every attribute re-announced (same value / other value) "
+        "0.5, 1.5, 2+ lifetimes later x an application callback reading at dispatch or not x a read just before or not: afterwards the second message's value is reported",
     )
     ctx.assumptions += ["a message kind's lifetime L is the library's own pkt._lifespan table (for 1F09: the countdown in the payload)", "grace after 2L: up to 10 s"]
 
@@ -439,6 +506,9 @@ def replay(rep: dict):
     elif "frame" in rep:
         fr = rep["frame"]
         check_expiry(t, fr, lifetime_from_payload=int(fr.split()[-1][2:6], 16) / 10 if " 1F09 003 " in fr and fr.startswith(" I") else None)
+    elif "renewal" in rep:
+        for i in range(8):
+            t.merge(shard_renewal((i, 8)))
     elif "staggered" in rep:
         for i in range(8):
             t.merge(shard_staggered((i, 8)))
